@@ -1,6 +1,7 @@
 package main
 
 import (
+	"regexp"
 	"bufio"
 	"bytes"
 	"context"
@@ -38,6 +39,7 @@ type c11Case struct {
 	Graph  [][]int           `json:"graph,omitempty"`
 	Form   int               `json:"form,omitempty"`
 	Chain  int               `json:"chain,omitempty"`
+	Coq    string            `json:"coq,omitempty"` // the model's case, for families that have one of their own
 }
 type c11Result struct {
 	ID    int    `json:"id"`
@@ -750,9 +752,10 @@ func sortStrings(xs []string) {
 func init() { streams["C11"] = runC11 }
 
 func runC11(r *Run) {
-	r.Imports = []string{"Model.Depth"}
+	r.Imports = []string{"Model.Depth", "Model.LayoutSlots"}
 	r.Rule("isolated worker processes (64 MB maximum stack, address-space limit, 4 s per case): (include-graph) every include graph over 3 files with 0-2 includes per file, includes placed plainly, inside v-for and inside v-if, entered through Load.Render, Vue.Render and RenderFragment; (cycle-shapes) cycles through slot content, slot fallbacks, layouts and nested named slots; (slot-rings) up to three named slots handed to a layout, to a component, or through a layout to a component, the content of each using any other (every ring, chain and self-reference); (slot-shapes) 11 kinds of supplied slot content (text, element, <template v-html / v-if / v-for / v-text>, wrapper, include) x 6 ways a component uses the slot once, twice or three times x default / named; " +
 		"(wrong-type) 32 directive positions x 39 data values (every kind: nil pointers, typed nil, unexported fields, non-string map keys, functions, channels, panicking Stringer, deep and cyclic structs / maps / slices); (root-data) each value as the root data; (functions) panicking, nil, non-function, wrong-arity, multi-result template functions as filters and calls, and 20 parameter kinds (arrays, pointers to arrays, typed slices, maps, channels, functions, structs, interfaces, narrow numbers, variadic, context-taking) x 25 data kinds; (bytes) spliced, token-soup and random byte strings as template sources and front-matter; (many-paths) templates with 330 distinct variable paths each, more than the engine's memo of parsed paths holds; (argument-texts) every string up to length 3 over quotes, commas, parentheses, blanks, a pipe, a dot, a letter and a digit as the argument list of a built-in function, as filter, call, bound attribute and v-text; (deep-nesting) elements nested 100..140, 200, 255..257, 300, 400 and 500 deep, and a component that includes itself over a thread 90 replies deep. " +
+		"(layout-slots, also compared with Model/LayoutSlots.v) a page that hands 1-4 named slot contents to its layout, contents and layout built from text markers, wrapper elements and <slot> elements with fallbacks nested up to 3 deep, every content free to use any slot - itself, the others, names nobody supplied; the sequence of text markers the layout shows must be the model's. " +
 		"Outcome must be ok or error: a panic reaching the caller, a timeout or a dead worker is a violation")
 	id := 0
 	var cases []c11Case
@@ -760,6 +763,7 @@ func runC11(r *Run) {
 	cases = append(cases, c11TypeCases(r, &id)...)
 	cases = append(cases, c11FuncCases(r, &id)...)
 	cases = append(cases, c11ByteCases(r, &id)...)
+	cases = append(cases, c11LayoutSlotCases(r, &id)...)
 	// more distinct variable paths in one process than any bounded memo of parsed paths holds (the engine keeps one of
 	// 256 entries): every lookup still returns
 	for _, form := range []string{"{{ m.v.k%d }}", "{{ m['k%d'].x }}", `<i v-if="m.v.q%d">y</i>`, `<i :title="m.w%d.z">t</i>`} {
@@ -808,7 +812,7 @@ func runC11(r *Run) {
 			}
 			coq := ""
 			if c.Family == "include-chain" {
-				coq = fmt.Sprintf("{| c_files := chain %d; c_root := 0 |}", c.Chain)
+				coq = fmt.Sprintf("CGraph (chain %d) 0", c.Chain)
 			} else {
 				var fl []string
 				for _, its := range c.Graph {
@@ -818,9 +822,22 @@ func runC11(r *Run) {
 					}
 					fl = append(fl, "["+strings.Join(xs, "; ")+"]")
 				}
-				coq = fmt.Sprintf("{| c_files := [%s]; c_root := 0 |}", strings.Join(fl, "; "))
+				coq = fmt.Sprintf("CGraph [%s] 0", strings.Join(fl, "; "))
 			}
 			r.Case("graph", coq, impl, map[string]any{"files": c.Files, "entry": c.Entry}, map[string]string{"family": c.Family}, true)
+		}
+		if c.Family == "layout-slots" {
+			var impl Obs
+			if cr.Class == "ok" {
+				var ids []Obs
+				for _, mm := range c11Marker.FindAllStringSubmatch(cr.Out, -1) {
+					ids = append(ids, A(mm[1]))
+				}
+				impl = L(A("ok"), L(ids...))
+			} else {
+				impl = L(A(cr.Class), A(cr.Err))
+			}
+			r.Case("graph", c.Coq, impl, map[string]any{"files": c.Files, "entry": c.Entry}, map[string]string{"family": c.Family}, strings.Count(c.Coq, "LSlot") >= 3)
 		}
 		if cr.Class == "ok" || cr.Class == "error" {
 			continue
@@ -852,4 +869,93 @@ func c11Where(msg string) string {
 		msg = msg[:60]
 	}
 	return msg
+}
+
+var c11Marker = regexp.MustCompile(`data-t="(\d+)"`)
+
+// slots a page hands to its layout (Model/LayoutSlots.v): items are text markers, wrappers and slots with fallbacks
+type c11Item struct {
+	kind int // 0 text, 1 wrapper, 2 slot
+	id   int
+	name int
+	kids []c11Item
+}
+
+func c11ItemsSrc(its []c11Item) string {
+	var sb strings.Builder
+	for _, it := range its {
+		switch it.kind {
+		case 0:
+			fmt.Fprintf(&sb, `<b data-t="%d">t</b>`, it.id)
+		case 1:
+			sb.WriteString("<div>" + c11ItemsSrc(it.kids) + "</div>")
+		default:
+			fmt.Fprintf(&sb, `<slot name="s%d">%s</slot>`, it.name, c11ItemsSrc(it.kids))
+		}
+	}
+	return sb.String()
+}
+func c11ItemsCoq(its []c11Item) string {
+	var xs []string
+	for _, it := range its {
+		switch it.kind {
+		case 0:
+			xs = append(xs, fmt.Sprintf("LText %d", it.id))
+		case 1:
+			xs = append(xs, "LWrap "+c11ItemsCoq(it.kids))
+		default:
+			xs = append(xs, fmt.Sprintf("LSlot %d %s", it.name, c11ItemsCoq(it.kids)))
+		}
+	}
+	return "[" + strings.Join(xs, "; ") + "]"
+}
+func c11LayoutSlotCases(r *Run, id *int) []c11Case {
+	rr := r.Rng
+	n := 150
+	if r.Thorough() {
+		n = 1500
+	}
+	var cases []c11Case
+	for c := 0; c < n; c++ {
+		next := 0
+		var gen func(depth int) []c11Item
+		gen = func(depth int) []c11Item {
+			var its []c11Item
+			for i, k := 0, rr.Intn(4); i < k; i++ {
+				switch x := rr.Intn(6); {
+				case x < 2 || depth == 0:
+					next++
+					its = append(its, c11Item{kind: 0, id: next})
+				case x == 2:
+					its = append(its, c11Item{kind: 1, kids: gen(depth - 1)})
+				default:
+					its = append(its, c11Item{kind: 2, name: rr.Intn(6), kids: gen(depth - 1)})
+				}
+			}
+			return its
+		}
+		names := []int{0, 1, 2, 3, 4}
+		for i := len(names) - 1; i > 0; i-- {
+			j := rr.Intn(i + 1)
+			names[i], names[j] = names[j], names[i]
+		}
+		names = names[:1+rr.Intn(4)]
+		var page strings.Builder
+		page.WriteString("---\nlayout: lay\n---\n<p>page</p>")
+		var tbl []string
+		for _, nm := range names {
+			content := gen(2)
+			// a content always mentions some slot, so that rings are common
+			content = append(content, c11Item{kind: 2, name: rr.Intn(6), kids: gen(1)})
+			fmt.Fprintf(&page, `<template %s>%s</template>`, Pick(rr, []string{fmt.Sprintf("#s%d", nm), fmt.Sprintf("v-slot:s%d", nm)}), c11ItemsSrc(content))
+			tbl = append(tbl, fmt.Sprintf("(%d, %s)", nm, c11ItemsCoq(content)))
+		}
+		layout := gen(3)
+		layout = append(layout, c11Item{kind: 2, name: names[0], kids: gen(1)})
+		*id++
+		cases = append(cases, c11Case{ID: *id, Family: "layout-slots", Entry: "load", Page: "page.vuego", Data: "string",
+			Files: map[string]string{"page.vuego": page.String(), "layouts/lay.vuego": `<main>` + c11ItemsSrc(layout) + `</main>`},
+			Coq:   fmt.Sprintf("CSlots [%s] %s", strings.Join(tbl, "; "), c11ItemsCoq(layout))})
+	}
+	return cases
 }
